@@ -55,8 +55,8 @@ theorem forceCloseLong_good {fx : Fixes} (hfx : fx.iipCopy = true) {w w' : W} {a
   obtain ⟨g1, k1, s1, f1⟩ := interestBlock_good hfx hg hw1
   have := closeTail_good g1 h
   rw [k1] at this
-  obtain ⟨t1, t2, t3, t4, t5, t6⟩ := this
-  refine ⟨t1, t2, t3, ⟨?_, ?_⟩, ?_, t6.trans s1⟩
+  obtain ⟨t1, t2, t3, t4, t5, t6, t7⟩ := this
+  refine ⟨t1, t2, t3, ⟨?_, ?_, t7.trans f1.count⟩, ?_, t6.trans s1⟩
   · intro k' hk'
     rw [t4, getMtpL_del_other _ hk']
     exact f1.mtps k' hk'
@@ -84,7 +84,8 @@ theorem Good.of_lookup {s : State} {m : Mtp} {p : Pool} {a : Addr} {id : Nat} (h
 
 theorem closeMsg_good {fx : Fixes} (hfx : fx.iipCopy = true) {s : State} {a : Addr} {id : Nat} {r : Nat × W}
     (hok : OKp s) (hwf : WFp s) (h : closeMsg fx s a id = .ok r) :
-    OKp r.2.s ∧ WFp r.2.s ∧ getMtpL r.2.s.mtps (a, id) = none := by
+    OKp r.2.s ∧ WFp r.2.s ∧ getMtpL r.2.s.mtps (a, id) = none ∧ r.2.s.mtpCount = s.mtpCount ∧
+      (∀ k, k ≠ (a, id) → getMtpL r.2.s.mtps k = getMtpL s.mtps k) := by
   unfold closeMsg at h
   obtain ⟨m, hm, h⟩ := bind_ok h
   obtain ⟨_, _, h⟩ := bind_ok h
@@ -92,17 +93,21 @@ theorem closeMsg_good {fx : Fixes} (hfx : fx.iipCopy = true) {s : State} {a : Ad
   have h := dropW_ok h
   obtain ⟨w1, hw1, h⟩ := bind_ok h
   obtain ⟨hg, hk⟩ := Good.of_lookup hok hwf hm hp
-  obtain ⟨g1, k1, _, _⟩ := interestBlock_good hfx hg hw1
+  obtain ⟨g1, k1, _, f1⟩ := interestBlock_good hfx hg hw1
   obtain ⟨r1, r2⟩ := r
   have := closeTail_good g1 h
   rw [k1] at this
   simp only [] at this
   rw [hk] at this
-  exact ⟨this.1, this.2.1, this.2.2.1⟩
+  refine ⟨this.1, this.2.1, this.2.2.1, this.2.2.2.2.2.2.trans f1.count, ?_⟩
+  intro k hk'
+  rw [this.2.2.2.1, getMtpL_del_other _ hk']
+  exact f1.mtps k (by rw [hk]; exact hk')
 
 theorem adminCloseMsg_good {fx : Fixes} (hfx : fx.iipCopy = true) {s : State} {signer a : Addr} {id : Nat} {t : Bool} {r : Nat × W}
     (hok : OKp s) (hwf : WFp s) (h : adminCloseMsg fx s signer a id t = .ok r) :
-    OKp r.2.s ∧ WFp r.2.s ∧ getMtpL r.2.s.mtps (a, id) = none ∧ s.admins.contains signer = true := by
+    OKp r.2.s ∧ WFp r.2.s ∧ getMtpL r.2.s.mtps (a, id) = none ∧ s.admins.contains signer = true ∧
+      r.2.s.mtpCount = s.mtpCount ∧ (∀ k, k ≠ (a, id) → getMtpL r.2.s.mtps k = getMtpL s.mtps k) := by
   unfold adminCloseMsg at h
   obtain ⟨_, hadm, h⟩ := bind_ok h
   obtain ⟨m, hm, h⟩ := bind_ok h
@@ -114,7 +119,7 @@ theorem adminCloseMsg_good {fx : Fixes} (hfx : fx.iipCopy = true) {s : State} {s
   have := forceCloseLong_good hfx hg h
   simp only [] at this
   rw [hk] at this
-  exact ⟨this.1, this.2.1, this.2.2.1, ensure_ok hadm⟩
+  exact ⟨this.1, this.2.1, this.2.2.1, ensure_ok hadm, this.2.2.2.1.count, this.2.2.2.1.mtps⟩
 
 end Sif.Margin
 
@@ -161,7 +166,10 @@ theorem borrow_ok {w w' : W} {ca : Asset} {amt cust : Nat} {eta : Dec} (hid : w.
 /-- `Open`: the new position and its pool move together -/
 theorem openMsg_good {fx : Fixes} (hfx : fx.openPair = true) {s : State} {msg : MsgOpen} {w : W}
     (hok : OKp s) (hwf : WFp s) (hcnt : s.mtpCount + 1 < u64) (h : openMsg fx s msg = .ok w) :
-    OKp w.s ∧ WFp w.s := by
+    OKp w.s ∧ WFp w.s ∧ getMtpL w.s.mtps w.mtp.key = some w.mtp ∧ getPoolL w.s.pools w.mtp.poolSym = some w.pool ∧
+      (∃ lr, updateMTPHealth w.s w.mtp w.pool = .ok lr ∧ w.s.params.safetyFactor < lr) ∧
+      w.mtp.key = (msg.signer, s.mtpCount + 1) ∧ w.s.mtpCount = s.mtpCount + 1 ∧
+      (∀ k, k ≠ w.mtp.key → getMtpL w.s.mtps k = getMtpL s.mtps k) := by
   unfold openMsg at h
   obtain ⟨_, _, h⟩ := bind_ok h
   obtain ⟨_, _, h⟩ := bind_ok h
@@ -186,10 +194,12 @@ theorem openMsg_good {fx : Fixes} (hfx : fx.openPair = true) {s : State} {msg : 
   obtain ⟨w1, hw1, h⟩ := bind_ok h
   obtain ⟨w2, hw2, h⟩ := bind_ok h
   obtain ⟨w3, hw3, h⟩ := bind_ok h
-  obtain ⟨lr, _, h⟩ := bind_ok h
-  obtain ⟨_, _, h⟩ := bind_ok h
+  obtain ⟨lr, hlr, h⟩ := bind_ok h
+  obtain ⟨_, hsafe, h⟩ := bind_ok h
   have h := pure_ok h
   subst h
+  have hlr := liftE_ok hlr
+  have hsafe := ensure_ok (liftE_ok hsafe)
   have hposition := ensure_ok hposition
   have hpair := ensure_ok hpair
   simp only [hfx, Bool.not_true, Bool.false_or] at hpair
@@ -226,6 +236,12 @@ theorem openMsg_good {fx : Fixes} (hfx : fx.openPair = true) {s : State} {msg : 
     · simp [hb, hc1]
   have hL3 : ∀ b, w3.pool.liab b = w1.pool.liab b := by
     intro b; rw [hw3e]; simp
+  have hhealth : ∃ lr, updateMTPHealth w3.s w3.mtp w3.pool = .ok lr ∧ w3.s.params.safetyFactor < lr := by
+    refine ⟨lr, hlr, ?_⟩
+    simp only [Bool.not_eq_true', decide_eq_false_iff_not] at hsafe
+    show w3.s.params.safetyFactor.i < lr.i
+    have : ¬ lr.i ≤ w3.s.params.safetyFactor.i := hsafe
+    omega
   unfold OKp
   rw [hP, hMs, hOC3]
   have hoc : s.openCount + 1 < u64 := by
@@ -241,7 +257,7 @@ theorem openMsg_good {fx : Fixes} (hfx : fx.openPair = true) {s : State} {msg : 
     omega
   have hnsym : w1.mtp.poolSym = pool.sym := by
     unfold Mtp.poolSym; rw [hcoll, hcust, hpsym]
-  refine ⟨?_, ?_⟩
+  refine ⟨?_, ?_, ?_, ?_, hhealth, ?_, by rw [hMC3, hmc1'], fun k hk => getMtpL_setMtpL_other _ (by rw [← hM3]; exact hk)⟩
   · rw [hoc1']
     apply OKc_trans (sym := pool.sym) (p0 := pool) (old := none) (new := some w1.mtp) hok hwf.syms (by rw [hpsym]; exact hp0)
       hS3 (Trans.add hnone)
@@ -282,5 +298,8 @@ theorem openMsg_good {fx : Fixes} (hfx : fx.openPair = true) {s : State} {msg : 
     · rw [hMs, setMtpL_absent hnone, length_insert, hMC3, hmc1']
       have := hwf.len; omega
     · rw [hMC3, hmc1']; exact hcnt
+  · rw [hM3, setMtpL_absent hnone]; exact getMtpL_insert_self hnone
+  · rw [hM3, hnsym, ← hS3]; exact getPoolL_set _ _
+  · rw [hM3]; unfold Mtp.key; rw [ha, hid1']
 
 end Sif.Margin
